@@ -16,13 +16,13 @@ CHECKS = {
          "TLC also closes the rejection universes exhaustively (Good holds with the refusal guard, is violated without it).",
          "TLC model checking + simulation of PyWriter with SlotReject, replayed catch-and-continue into real Streams + TLC trace judging (prefix validity)"),
  "C01": ("model_checking", "6 C01",
-         "State-graph comparison at the granularity of one public call: every reachable idle state x every call of small slices (triple / quad / namespace_declaration / GraphStream.graph(g, 0..k triples); refused calls included: the stream must then be failed) is executed on real Stream objects, the reachable state sets equal TLC's and every real call is re-executed by TLC on PyWriter (spec/TraceWriter.tla: same rows, same successor, composite clause Good), so for those slices the model's exhaustive theorem transfers to the code. "
+         "State-graph comparison at the granularity of one public call: every reachable idle state x every call of small slices (triple / quad / namespace_declaration / GraphStream.graph(g, 0..k triples); refused calls included: the stream must then be failed) is executed on real Stream objects, the reachable state sets equal TLC's and every real call is re-executed by TLC on PyWriter (spec/TraceWriter.tla: same rows, same successor, composite clause Good), so for those slices the model's exhaustive theorem transfers to the code; independently of PyWriter, TLC evaluates on every real edge the inductive step of the Tier-1 theorem (the real rows, read from the reader state mirroring the real writer state, are valid, denote the call, and re-establish the mirror), which by induction covers every history of calls inside the slice. "
          "TLC closes the composition PyWriter o JellyReader (per-statement invariants Good/Mirrored/TablesBounded/BufBounded) on slice universes, i.e. for histories of any length within each slice; "
          "TLC-simulated behaviours of larger universes are replayed op by op into real Streams (model rows = real rows) and through the whole-sequence entry points; "
          "every byte string is judged by TLC (TraceReader) and parsed back with pyjelly; long deterministic workloads wrap tables of 128/256/4096 entries. Exhaustive per slice, sampled beyond; string-level variety through four substitution classes (identity, realistic, unicode, odd content).",
          "TLA+ model checking (TLC) of PyWriter o JellyReader + replay of TLC behaviours into real Streams + TLC trace judging of the bytes"),
  "C02": ("model_checking", "6 C02",
-         "RDF 1.1 behaviours of PyWriter (TLC simulation) are built as rdflib Graph/Dataset (default, IRI and bnode graph names; plain, language-tagged and typed objects incl. xsd:string and non-canonical lexical forms) and written through Graph.serialize with TripleStream / QuadStream / GraphStream, "
+         "State graph of the serializer with the rdflib term encoder under the Stream (RDF 1.1 slices: every reachable state x every public call on real objects; TLC evaluates the Tier-1 inductive step on every real edge and compares it with PyWriter). RDF 1.1 behaviours of PyWriter (TLC simulation) are built as rdflib Graph/Dataset (default, IRI and bnode graph names; plain, language-tagged and typed objects incl. xsd:string and non-canonical lexical forms) and written through Graph.serialize with TripleStream / QuadStream / GraphStream, "
          "flat and grouped logical types, delimited and non-delimited flat, and through the stream functions; the bytes are judged by TLC as a SET against what rdflib reports as the input, and parsed back through Graph.parse / Dataset.parse, parse_jelly_to_graph and parse_jelly_flat. "
          "Every fifth behaviour is written with tables smaller than one statement may need (refusal allowed, silent corruption not). The composition PyWriter o JellyReader is closed exhaustively on the TRIPLES/QUADS/GRAPHS slices.",
          "TLC simulation + model checking of PyWriter, replay through the rdflib entry points, TLC trace judging with set semantics"),
@@ -30,7 +30,7 @@ CHECKS = {
          "The independent decoder IS the Tier-1 TLA+ reader: every stream the real serializer writes (model-generated inputs, all generic entry points) is decoded by /verif's own codec and validated row by row by TLC, including denotation = input; so is every stream the repository's OWN test suite makes pyjelly write (recorded from outside by a pytest plugin on a scratch copy of the working tree).",
          "TLC trace validation of real serializer output against spec/JellyReader.tla; TLC model checking of PyWriter => reader never errs"),
  "C04": ("model_checking", "6 C04",
-         "Reader state graph: TLC closes JellyProducer in tiny universes and prints every transition (reader state, legal row, reader state', item); the harness walks the graph on a real Decoder, one test per transition (item and projected state equal). "
+         "Reader state graph: TLC closes JellyProducer in tiny universes and prints every transition (reader state, legal row, reader state', item); the harness walks the graph on a real Decoder under the generic AND the rdflib adapters, one test per transition (item and projected state equal). "
          "JellyProducer is the nondeterministic generator of exactly the row sequences the Tier-1 reader accepts (any slot/eviction choice, split, explicit-or-zero id, elision or not, early/redundant entries, repeated options, cuts, empty frames, "
          "ids at the top of 4096-entry tables, disabled tables, versions 1-2); TLC simulates it, each behaviour carries its denotation, /verif's codec writes the bytes, and the six parse entry points must return exactly that denotation. Sampled, not exhaustive.",
          "TLC simulation of spec/JellyProducer.tla (Tier-1 producer) replayed as bytes into the real parsers; denotation computed by TLC"),
@@ -39,7 +39,7 @@ CHECKS = {
          "with the TLC-computed denotation as arbiter; corresponding generic/rdflib statement iterators with equal options must serialize to identical bytes.",
          "differential replay of TLC-generated behaviours (JellyProducer, PyWriter) through both integrations, arbitrated by the TLA+ denotation"),
  "C16": ("fault_enumeration", "6 C16",
-         "Reader state graph: for every reachable reader state of tiny universes TLC prints every catalogued illegal next row (confirmed invalid by the TLA+ reader); each is applied to a real Decoder brought into that state and must raise. "
+         "Reader state graph: for every reachable reader state of tiny universes TLC prints every catalogued illegal next row (confirmed invalid by the TLA+ reader); each is applied to a real Decoder (generic and rdflib adapters) brought into that state and must raise. "
          "One catalogued violation (12 classes) is injected by the producer model after FaultAt rows of an arbitrary legal stream; only rows the Tier-1 reader rejects at that very row qualify. Both integrations' flat parsers are drained item by item: "
          "an exception must be raised and everything yielded before must be the denotation of the earlier rows.",
          "TLC simulation of JellyProducer.Violate (fault injection confirmed invalid by the TLA+ reader) replayed into the real parsers"),
@@ -91,7 +91,7 @@ CHECKS = {
          "each sequence, longer random walks and byte-level perturbations of real streams are parsed by all six entry points from BytesIO and non-seekable sources in a worker with RLIMIT_AS and a watchdog. The behaviour of the protobuf C extension is observed, not modelled.",
          "TLC exhaustive enumeration of hostile token sequences (spec/Hostile.tla) + watchdogged execution of every parse entry point; random byte perturbation"),
  "C18": ("model_checking", "6 C18",
-         "PyWriter (with the per-row claim/refusal logic of TermEncoder) is simulated with the Fits guard off over universes whose statements need more prefix/datatype/name entries than the table holds; "
+         "Small undersized universes are closed on real Streams under both term encoders: every reachable state x every call is either refused (stream failed, valid prefix) or judged valid and faithful by TLC (Tier-1 inductive step on the real edge), and equals PyWriter's transition. PyWriter (with the per-row claim/refusal logic of TermEncoder) is simulated with the Fits guard off over universes whose statements need more prefix/datatype/name entries than the table holds; "
          "each behaviour is replayed into a real Stream (generic term encoder, and the rdflib term encoder for the IRI-only universes): the refusal must come exactly where the model refuses, and whatever was written is judged by TLC against the accepted statements.",
          "TLC simulation of PyWriter (CheckFits=FALSE) replayed into real Streams + TLC trace judging"),
  "C19": ("model_checking", "6 C19",
